@@ -173,7 +173,7 @@ def to_json(tid, rec: Recorder, names, values, objs):
 
 
 # ------------------------------------------------------------------------------- TLC
-def validate(ctx, traces, label):
+def validate(ctx, traces, label, sigs_by_tid=None):
     """traces: list of (json obj, Recorder).  Runs RefMapTrace over all of them; returns
     (findings, drift messages, number of executions without a failed property clause)."""
     if not traces:
@@ -202,6 +202,8 @@ def validate(ctx, traces, label):
             clean += 1
         for (step, clause, want, name) in fl:
             f = describe(rec, obj, step, clause, want, name)
+            if sigs_by_tid is not None:
+                sigs_by_tid.setdefault(obj["tid"], set()).add(f.sig)
             if clause == "placement":
                 if len(drift) < 50:
                     drift.append(f.what)
